@@ -27,7 +27,7 @@ CRLF2 = b'\r\n\r\n'
 
 
 class Unsupported(Exception):
-    """the message leaves the domain of the model (Python exception in a leaf, negative sizes)"""
+    """the message leaves the domain of the model (Python exception in a leaf)"""
 
 
 # ---------------------------------------------------------------------------------------
@@ -86,7 +86,9 @@ def lex_hdrs(block):
             'dec': httputil.canon_headers(h), 'consistent': consistent}
 
 
-def lex_chunk(line):
+def chunk_raw(line):
+    """what the `_parse_chunk_size` of the tree under test makes of a chunk-size line: a number (of either sign) or
+    None = InvalidChunkSize"""
     from circuits.web.parsers.http import HttpParser, InvalidChunkSize
     try:
         size, _rest = HttpParser()._parse_chunk_size(line + CRLF2)
@@ -94,8 +96,23 @@ def lex_chunk(line):
         return None
     except Exception as e:
         raise Unsupported(f'chunk leaf raised {type(e).__name__}')
-    if size is None or size < 0:
+    if size is None:
         raise Unsupported('chunk size outside the model')
+    return size
+
+
+def lex_chunk(line, negative=None):
+    """
+    the value of the model's `lex.chunk : Bytes -> Option Nat` (none = InvalidChunkSize) for this line, asked of the
+    tree under test.  A negative size is InvalidChunkSize in the code (fix: negative chunk size) and hence `none` in
+    the model; a tree that still returns a negative number from its lexer is not skipped: the line goes into the
+    model as `none` and (line, number) is recorded in `negative`, which the callers report as a disagreement.
+    """
+    size = chunk_raw(line)
+    if size is not None and size < 0:
+        if negative is not None:
+            negative.append((line, size))
+        return None
     return size
 
 
@@ -168,6 +185,7 @@ class LexTables:
         self.hdrs = {}
         self.chunk = {}
         self.path = {}
+        self.negchunk = []   # (line, n < 0): the code's chunk-size lexer returned a negative number
 
     def add_message(self, kind, msg, chunked_hint=True):
         fl, hb, lines = candidates(msg)
@@ -181,7 +199,7 @@ class LexTables:
         if h and h['te'] and h['clen'] == 'absent':
             for ln in lines:
                 if ln not in self.chunk:
-                    self.chunk[ln] = lex_chunk(ln)
+                    self.chunk[ln] = lex_chunk(ln, self.negchunk)
         if kind == 0 and self.first[(kind, fl)] is not None and (fl, hb) not in self.path:
             if hb is None or self.hdrs.get(hb) is not None:
                 self.path[(fl, hb)] = path_ok(fl, hb)
@@ -207,6 +225,13 @@ class LexTables:
 
     def inconsistent(self):
         return [hx(hb) for hb, v in self.hdrs.items() if v is not None and not v['consistent']]
+
+    def report_negative(self, ctx, case):
+        """-> True if the tree's chunk-size lexer returned a negative number for a line of this case (disagreement)"""
+        for ln, n in self.negchunk:
+            ctx.disagree(case, {'where': 'lexc-negative', 'line': repr(ln), 'impl': n, 'model': 'none (InvalidChunkSize)',
+                                'what': "the code's chunk-size lexer returns a negative number instead of raising InvalidChunkSize"})
+        return bool(self.negchunk)
 
 
 # ---------------------------------------------------------------------------------------
@@ -532,6 +557,8 @@ def eval_parser(ctx, cases):
         for bad in t.inconsistent():
             ok = False
             ctx.disagree(c, {'where': 'lexh-consistency', 'impl': 'parser framing differs from Headers view', 'model': bad})
+        if t.report_negative(ctx, c):
+            ok = False
         for i, (st, a) in enumerate(zip(states, ans[skip:])):
             m = parse_state(a)
             if 'exn' in st:
@@ -657,6 +684,8 @@ def eval_server(ctx, cases):
         for bad in t.inconsistent():
             ok = False
             ctx.disagree(c, {'where': 'lexh-consistency', 'model': bad})
+        if t.report_negative(ctx, c):
+            ok = False
         body_ans = ans[skip:skip + len(plan)]
         last_tab = None
         for i, ((what, x), a) in enumerate(zip(plan, body_ans)):
